@@ -11,8 +11,13 @@ A case is `classes <hex>…` (the class registry of the build, in `ClassDef` lis
 items (prefix notation): `p <prim> <nat>` | `r <hex>` | `s <hex>` | `op <lbl>` | `sp <lbl>` |
 `pos <lbl>` | `obj <lbl> <classname-hex> <n> <n items>` (read back with `ArchiveObject`; `objt`: with `ReadObject<T>()`;
 `objp`: with the polymorphic `ReadObject()`) | `v <self> <value>`;  `-` is the empty byte string.
-values: `n` | `i <nat>` | `f <nat>` | `c <nat>` | `s <hex>` | `k0` | `k <hex>` | `vec <hex>` | `l <lbl>` |
-`ca <holder> <refcount> <n> (<self> <value>)*n` | `car <holder>`.  Read-backs print elements without `<self>`. -/
+values: `n` | `i <nat>` | `f <nat>` | `c <nat>` | `s <hex>` | `k0` | `k <hex>` | `vec <hex>` | `l <lbl>` (Listener) |
+`ref <lbl>` (Ref to a variable) | `con <lbl>` | `scon <lbl>` (Container / SafeContainer) |
+`ca <holder> <refcount> <n> (<self> <value>)*n` | `car <holder>` |
+`arr <holder> <refcount> <tableLength> <threshold> <tableLengthIndex> <n> <perm>*n (<kself> <key> <vself> <value>)*n`
+(entries in insertion order; `perm` = the order in which the writer's table walk visits them) | `aref <holder>` |
+`ptr <cell> <n> <variable>*n` | `pref <cell>`.
+Read-backs print elements without `<self>`, arrays without `perm` and with the entries sorted by key text. -/
 namespace Driver.Archive
 open Morfuse.Archive
 
@@ -90,8 +95,27 @@ partial def parseValue : List String → Option (Value × List String)
   | "k0" :: r => some (.constString none, r)
   | "k" :: h :: r => do some (.constString (some (← bytes? h)), r)
   | "vec" :: h :: r => do let b ← bytes? h; if b.length = 12 then some (.vector b, r) else none
-  | "l" :: l :: r => do some (.listener (← l.toNat?), r)
-  | "car" :: h :: r => do some (.constArrayRef (← h.toNat?), r)
+  | "l" :: l :: r => do some (.link 6 true (← l.toNat?), r)
+  | "ref" :: l :: r => do some (.link 7 false (← l.toNat?), r)
+  | "con" :: l :: r => do some (.link 10 false (← l.toNat?), r)
+  | "scon" :: l :: r => do some (.link 11 true (← l.toNat?), r)
+  | "car" :: h :: r => do some (.holderRef 9 (← h.toNat?), r)
+  | "aref" :: h :: r => do some (.holderRef 8 (← h.toNat?), r)
+  | "pref" :: h :: r => do some (.holderRef 12 (← h.toNat?), r)
+  | "ptr" :: p :: n :: r => do
+    let n ← n.toNat?
+    if r.length < n then none else
+    some (.pointer (← p.toNat?) (← (r.take n).mapM String.toNat?), r.drop n)
+  | "arr" :: h :: rc :: tl :: th :: tli :: n :: r => do
+    -- entries in insertion order (what the harness does), preceded by the order of the writer's table walk
+    let n ← n.toNat?
+    if r.length < n then none else
+    let perm ← (r.take n).mapM String.toNat?
+    let (es, r') ← parseElems (2 * n) (r.drop n)
+    let pairs := (List.range n).map fun i => (es.getD (2 * i) (0, .none), es.getD (2 * i + 1) (0, .none))
+    if perm.any (· ≥ n) then none else
+    let walk := perm.flatMap fun i => match pairs[i]? with | some (k, v) => [k, v] | none => []
+    some (.array (← h.toNat?) (← rc.toNat?) (← tl.toNat?) (← th.toNat?) (← tli.toNat?) walk, r')
   | "ca" :: h :: rc :: n :: r => do
     let (es, r') ← parseElems (← n.toNat?) r
     some (.constArray (← h.toNat?) (← rc.toNat?) es, r')
@@ -129,6 +153,15 @@ partial def showItem : Item → String
 partial def showItems (l : List Item) : String := " ".intercalate (l.map showItem)
 end
 
+/-- a hash array as read back: the entries sorted by the text of their key (the reader's own table order is not
+    the writer's) -/
+def showArr (h rc tl th tli : Nat) (rendered : List String) : String :=
+  let rec pairs : List String → List (String × String)
+    | k :: v :: r => (k, v) :: pairs r
+    | _ => []
+  let ps := ((pairs rendered).toArray.qsort fun a b => a.1 < b.1).toList
+  s!"arr {h} {rc} {tl} {th} {tli} {ps.length}" ++ (if ps.isEmpty then "" else " " ++ " ".intercalate (ps.map fun (k, v) => k ++ " " ++ v))
+
 mutual
 partial def showValue : Value → String
   | .none => "n"
@@ -139,8 +172,10 @@ partial def showValue : Value → String
   | .constString none => "k0"
   | .constString (some bs) => s!"k {toHex bs}"
   | .vector bs => s!"vec {toHex bs}"
-  | .listener l => s!"l {l}"
-  | .constArrayRef h => s!"car {h}"
+  | .link c _ l => s!"{match c with | 6 => "l" | 7 => "ref" | 10 => "con" | _ => "scon"} {l}"
+  | .holderRef c h => s!"{match c with | 8 => "aref" | 9 => "car" | _ => "pref"} {h}"
+  | .pointer p vs => s!"ptr {p} {vs.length}" ++ (if vs.isEmpty then "" else " " ++ " ".intercalate (vs.map toString))
+  | .array h rc tl th tli es => showArr h rc tl th tli (es.map fun (_, v) => showValue v)
   | .constArray h rc es => s!"ca {h} {rc} {es.length}" ++ (if es.isEmpty then "" else " " ++ " ".intercalate (es.map fun (_, v) => showValue v))
 end
 
@@ -161,6 +196,9 @@ partial def showValueD (d : Dict) : Value → List Nat → String × List Nat
   | .constArray h rc es, ids =>
     let r := showElemsD d es ids
     (s!"ca {h} {rc} {es.length}" ++ (if es.isEmpty then "" else " " ++ " ".intercalate r.1), r.2)
+  | .array h rc tl th tli es, ids =>
+    let r := showElemsD d es ids
+    (showArr h rc tl th tli r.1, r.2)
   | v, ids => (showValue v, ids)
 partial def showElemsD (d : Dict) : List (Lbl × Value) → List Nat → List String × List Nat
   | [], ids => ([], ids)
@@ -184,7 +222,7 @@ def errName : Err → String
   | .invalidClass => "InvalidClass" | .objectClassError => "ObjectClassError"
   | .readPastEnd => "ReadPastEndObject" | .notReadEntire => "NotReadEntireDataObject"
   | .streamFail => "ReadStreamFail" | .invalidIndex => "InvalidObjectIndex"
-  | .uninit => "UB:uninit" | .oob => "UB:oob" | .alloc => "UB:alloc"
+  | .uninit => "UB:uninit" | .oob => "UB:oob" | .alloc => "UB:alloc" | .badHash => "std::exception"
 
 def pcName : PC → String
   | .hdr => "hdr" | .tag => "tag" | .ver => "ver" | .size => "size" | .cls => "cls" | .pcls => "pcls" | .len => "len"
